@@ -710,11 +710,13 @@ func (obj *SparseReal64Matrix) JointIterator(b ConstMatrix) MatrixJointIterator 
 }
 func (obj *SparseReal64Matrix) ITERATOR() *SparseReal64MatrixIterator {
   r := SparseReal64MatrixIterator{*obj.values.ITERATOR(), obj}
+  r.skipOutside()
   return &r
 }
 func (obj *SparseReal64Matrix) ITERATOR_FROM(i, j int) *SparseReal64MatrixIterator {
   k := obj.index(i, j)
   r := SparseReal64MatrixIterator{*obj.values.ITERATOR_FROM(k), obj}
+  r.skipOutside()
   return &r
 }
 func (obj *SparseReal64Matrix) JOINT_ITERATOR(b ConstMatrix) *SparseReal64MatrixJointIterator {
@@ -735,6 +737,21 @@ type SparseReal64MatrixIterator struct {
 }
 func (obj *SparseReal64MatrixIterator) Index() (int, int) {
   return obj.m.ij(obj.SparseReal64VectorIterator.Index())
+}
+func (obj *SparseReal64MatrixIterator) Next() {
+  obj.SparseReal64VectorIterator.Next()
+  obj.skipOutside()
+}
+// the storage is shared with the parent matrix, skip all
+// elements that are not part of this view
+func (obj *SparseReal64MatrixIterator) skipOutside() {
+  for obj.SparseReal64VectorIterator.Ok() {
+    i, j := obj.Index()
+    if i >= 0 && j >= 0 && i < obj.m.rows && j < obj.m.cols {
+      break
+    }
+    obj.SparseReal64VectorIterator.Next()
+  }
 }
 func (obj *SparseReal64MatrixIterator) Clone() *SparseReal64MatrixIterator {
   return &SparseReal64MatrixIterator{*obj.SparseReal64VectorIterator.Clone(), obj.m}
